@@ -18,6 +18,7 @@ from dst.storage import builder, images
 from dst.storage.simfile import Budget, IoSeam, ReadBudgetExceeded
 
 ID = "C08"
+RUN_WALL_S = 90    # per-run wall-clock alarm for loops that perform no I/O (see core.guarded)
 LEVEL = "fault_enumeration"
 RUNS = {"quick": 700, "thorough": 25000}
 CHUNK = {"quick": 16, "thorough": 64}
